@@ -393,16 +393,30 @@ Definition span_value (v : value) : json :=
   | _ => event_value v
   end.
 
-(** Only JsonVisitor::record_debug strips a raw-identifier prefix; the typed record_* methods (and every event field)
-    keep `r#type` verbatim (second asymmetry). *)
+(** Which `Visit` method of JsonVisitor a value arrives through (a method the visitor does not override falls back to
+    record_debug), and — READ OFF THE SOURCE per method (TVGen.Gen_json, helper functions resolved) — whether that method
+    strips a raw-identifier prefix / skips `log.*` names.  On the tree as it is only record_debug does either
+    ([via_debug]; JsonProofsMap.strips_raw_is_via_debug / skips_log_is_via_debug): the typed record_* methods (and every
+    event field) keep `r#type` verbatim (second asymmetry). *)
 Definition via_debug (v : value) : bool :=
   match v with VU128 _ | VI128 _ | VText _ => true | _ => false end.
+Local Open Scope string_scope.
+Definition typed_method (v : value) : string :=
+  match v with
+  | VU64 _ => "record_u64" | VI64 _ => "record_i64" | VBool _ => "record_bool" | VStr _ => "record_str"
+  | VF64 _ => "record_f64" | VBytes _ => "record_bytes" | VU128 _ | VI128 _ | VText _ => "record_debug"
+  end.
+Definition visit_method (v : value) : string :=
+  if existsb (String.eqb (typed_method v)) gen_jsonvisitor_methods then typed_method v else "record_debug".
+Local Close Scope string_scope.
+Definition strips_raw (v : value) : bool := existsb (String.eqb (visit_method v)) gen_jsonvisitor_strip_raw.
+Definition skips_log (v : value) : bool := existsb (String.eqb (visit_method v)) gen_jsonvisitor_log_skip.
 Definition strip_raw (k : bytes) : bytes :=      (* name.starts_with r# => the name without its first two bytes *)
   match k with
   | a :: b :: r => if (a =? 114) && (b =? 35) then r else k
   | _ => k
   end.
-Definition span_key (k : bytes) (v : value) : bytes := if via_debug v then strip_raw k else k.
+Definition span_key (k : bytes) (v : value) : bytes := if strips_raw v then strip_raw k else k.
 
 (** the shape facts above, in the form the translator extracts them from the source *)
 Local Open Scope string_scope.
@@ -461,11 +475,12 @@ Record cfg := { fx10 : bool; fx141 : bool; feat_log : bool }.
 Definition repo_cfg_of (lg : bool) : cfg := {| fx10 := gen_f10_fixed; fx141 := gen_f141_fixed; feat_log := lg |}.
 Definition repo_cfg : cfg := repo_cfg_of false.
 
-(** cfg(feature = "tracing-log"): `name if name.starts_with("log.") => ()` is the FIRST arm of JsonVisitor::record_debug
-    (before the r# arm), so it looks at the raw field name and only at values that arrive through record_debug. *)
+(** cfg(feature = "tracing-log"): `name if name.starts_with("log.") => ()` is the FIRST arm (before the r# arm), so it looks
+    at the raw field name; it applies to the values that arrive through a method the translator found it in ([skips_log]:
+    record_debug only, on the tree as it is). *)
 Definition has_prefix (p k : bytes) : bool := match strip_prefix p k with Some _ => true | None => false end.
 Definition log_skipped (c : cfg) (kv : bytes * value) : bool :=
-  feat_log c && via_debug (snd kv) && has_prefix (bs "log.") (fst kv).
+  feat_log c && skips_log (snd kv) && has_prefix (bs "log.") (fst kv).
 (** the writes of one ValueSet that reach the span's map *)
 Definition eff (c : cfg) (vals : fields) : fields := filter (fun kv => negb (log_skipped c kv)) vals.
 
